@@ -34,7 +34,7 @@ PROPS = {
         "trusted": ["known findings: returns-commodity-filter-counts-filtered-flows, returns-meaningless-when-start-value-plus-inflow-vanishes, returns-meaningless-when-start-value-is-rounding-residue"],
     },
     "C16": {
-        "lean": ["Knut.Properties.C16", "Knut.FactsAgree.TransProcess", "Knut.FactsAgree.TransJPrinter", "Knut.FactsAgree.TransJPrinter2", "Knut.FactsAgree.TransBeancount", "Knut.Properties.C16Go"],
+        "lean": ["Knut.Properties.C16", "Knut.FactsAgree.TransProcess", "Knut.FactsAgree.TransJPrinter", "Knut.FactsAgree.TransJPrinter2", "Knut.FactsAgree.TransBeancount", "Knut.Properties.C16Go", "Knut.FactsAgree.TransProcessAll", "Knut.FactsAgree.TransProcessAllCheck"],
         "level": "proof",
         "claim": "PARTIAL proof (one clause is false on the code and recorded as known finding) + byte-exact correspondence. Lean theorems over the model of `knut transcode -v V` "
                  "(Sort, ComputePrices, check, Valuate with daily value adjustments, then beancount.Transcode as an entry list and its text), for ALL journals and valuation commodities on which "
@@ -122,7 +122,7 @@ PROPS = {
         "assumptions": ["journals with two prices for one commodity pair on one day are not generated (excluded by the property)"],
     },
     "C03": {
-        "lean": ["Knut.Properties.C03", "Knut.Properties.C03Bound", "Knut.Properties.C03Bridge", "Knut.Properties.C03Window", "Knut.Properties.C03Report", "Knut.Properties.C03Command", "Knut.Properties.C03Modes", "Knut.Properties.C03Flows", "Knut.FactsAgree.TransProcess", "Knut.FactsAgree.TransQuery", "Knut.FactsAgree.TransMapping", "Knut.FactsAgree.TransSwapType", "Knut.FactsAgree.TransBalanceCmd"],
+        "lean": ["Knut.Properties.C03", "Knut.Properties.C03Bound", "Knut.Properties.C03Bridge", "Knut.Properties.C03Window", "Knut.Properties.C03Report", "Knut.Properties.C03Command", "Knut.Properties.C03Modes", "Knut.Properties.C03Flows", "Knut.FactsAgree.TransProcess", "Knut.FactsAgree.TransQuery", "Knut.FactsAgree.TransMapping", "Knut.FactsAgree.TransSwapType", "Knut.FactsAgree.TransBalanceCmd", "Knut.FactsAgree.TransProcessAll", "Knut.FactsAgree.TransProcessAllCheck", "Knut.FactsAgree.TransProcessAllBalance"],
         "level": "proof",
         "claim": "Proof + full correspondence + exact monitors. Spec.mtm (Spec/MTM.lean) = sum over commodities of summed quantity x Prices.normalize price of the declarations up to D, exact. "
                  "Proved from the directives to the CELLS of the rendered table for every valued report mode except a --commodity filter: (a) C03_command_cell (Properties/C03Report.lean): cumulative per-account rows, "
@@ -165,7 +165,7 @@ PROPS = {
         "assumptions": [],
     },
     "C02": {
-        "lean": ["Knut.Properties.C02", "Knut.Properties.C02Close", "Knut.Properties.C02Command", "Knut.FactsAgree.TransProcess", "Knut.FactsAgree.TransQuery", "Knut.FactsAgree.TransAmountsSum", "Knut.FactsAgree.TransReport", "Knut.FactsAgree.TransReportTotals", "Knut.FactsAgree.TransReportSort", "Knut.FactsAgree.TransRender", "Knut.FactsAgree.TransRenderVals", "Knut.FactsAgree.TransMapping", "Knut.FactsAgree.TransSwapType", "Knut.FactsAgree.TransBalanceCmd", "Knut.FactsAgree.TransBalanceCmdGo", "Knut.Properties.C02Go"],
+        "lean": ["Knut.Properties.C02", "Knut.Properties.C02Close", "Knut.Properties.C02Command", "Knut.FactsAgree.TransProcess", "Knut.FactsAgree.TransQuery", "Knut.FactsAgree.TransAmountsSum", "Knut.FactsAgree.TransReport", "Knut.FactsAgree.TransReportTotals", "Knut.FactsAgree.TransReportSort", "Knut.FactsAgree.TransRender", "Knut.FactsAgree.TransRenderVals", "Knut.FactsAgree.TransMapping", "Knut.FactsAgree.TransSwapType", "Knut.FactsAgree.TransBalanceCmd", "Knut.FactsAgree.TransBalanceCmdGo", "Knut.Properties.C02Go", "Knut.FactsAgree.TransProcessAll", "Knut.FactsAgree.TransProcessAllCheck", "Knut.FactsAgree.TransProcessAllBalance", "Knut.Properties.C02Go2"],
         "level": "proof",
         "claim": "Spec.ledgerEntries (Spec/Ledger.lean) defines the report independently of the pipeline: window bookings mapped/filtered/aligned plus, with closing, the transfer of "
                  "each income/expense/equity total booked in [previous closing day, s) to Equity:Equity at every shown period start. Proved for all journals and flags: C02_noclose (without "
@@ -190,7 +190,7 @@ PROPS = {
                         "translated account mapping and balance query (FactsAgree/TransMapping, TransSwapType, TransBalanceCmd): a compiled regular expression is read as its match predicate (GoSem/RegexpMatch.lean; which predicate a pattern denotes is outside the reading, as in the model); the account registry is not translated: MustGetPath and SwapType/Get are parameters assumed to return THE account of the path / name asked for; of cmd/commands/balance.go execute the journal.Query literal and Multiperiod.Partition are translated, the rest (processor list with its arguments, setup statements, renderer literals, flags) is pinned by source text"],
     },
     "C01": {
-        "lean": ["Knut.Properties.C01", "Knut.Properties.C01Table", "Knut.FactsAgree.TransAccount", "Knut.FactsAgree.TransPosting", "Knut.FactsAgree.TransTransaction", "Knut.FactsAgree.TransProcess", "Knut.FactsAgree.TransQuery", "Knut.FactsAgree.TransAmountsSum", "Knut.FactsAgree.TransReport", "Knut.FactsAgree.TransReportTotals", "Knut.FactsAgree.TransReportSort", "Knut.FactsAgree.TransRender", "Knut.FactsAgree.TransRenderVals", "Knut.FactsAgree.TransMapping", "Knut.FactsAgree.TransSwapType", "Knut.FactsAgree.TransBalanceCmd", "Knut.FactsAgree.TransBalanceCmdGo", "Knut.Properties.C01Go"],
+        "lean": ["Knut.Properties.C01", "Knut.Properties.C01Table", "Knut.FactsAgree.TransAccount", "Knut.FactsAgree.TransPosting", "Knut.FactsAgree.TransTransaction", "Knut.FactsAgree.TransProcess", "Knut.FactsAgree.TransQuery", "Knut.FactsAgree.TransAmountsSum", "Knut.FactsAgree.TransReport", "Knut.FactsAgree.TransReportTotals", "Knut.FactsAgree.TransReportSort", "Knut.FactsAgree.TransRender", "Knut.FactsAgree.TransRenderVals", "Knut.FactsAgree.TransMapping", "Knut.FactsAgree.TransSwapType", "Knut.FactsAgree.TransBalanceCmd", "Knut.FactsAgree.TransBalanceCmdGo", "Knut.Properties.C01Go", "Knut.FactsAgree.TransProcessAll", "Knut.FactsAgree.TransProcessAllCheck", "Knut.FactsAgree.TransProcessAllBalance", "Knut.Properties.C01Go2"],
         "level": "proof",
         "claim": "Lean theorems over the model of the whole balance pipeline (check, ComputePrices, Valuate with daily value adjustments, Filter, CloseAccounts, Query, report totals): "
                  "C01_entries_cancel (for every journal made of posting pairs, every window/interval/--last/--diff/--close/--remap/-m level>=1, valued or not, without filters, the report inserts "
